@@ -551,6 +551,7 @@ type script struct {
 	dels  []int
 	nofd  bool
 	pad   int
+	multi bool // the payload of a MULTICALL that is a multicall script (the stub runs it on the sender's own record)
 }
 
 type txSpec struct {
@@ -598,7 +599,8 @@ func (s *session) scriptJSON(sc *script) []byte {
 		Xfers []jx     `json:"xfers"`
 		Sets  []js     `json:"sets"`
 		Dels  []string `json:"dels"`
-	}{Fee: sc.fee.String(), Err: sc.err}
+		Multi bool     `json:"multi,omitempty"`
+	}{Fee: sc.fee.String(), Err: sc.err, Multi: sc.multi}
 	if sc.err == "ok" {
 		o.Err = ""
 	}
@@ -645,6 +647,17 @@ func (s *session) recipientBytes(x *txSpec) []byte {
 		return []byte(nameStr(x.rcptName))
 	}
 	return s.t.addr[x.rcpt]
+}
+
+// target: the account the VM runs on (the recipient, the contract being created, or - MULTICALL - the sender).
+func (x *txSpec) target() int {
+	if x.typ == types.TxType_MULTICALL {
+		return x.sender
+	}
+	if x.rcpt < 0 {
+		return x.newAddr
+	}
+	return x.rcpt
 }
 
 func (s *session) finish(x *txSpec) {
@@ -711,7 +724,11 @@ func (x *txSpec) words() string {
 	for _, kv := range x.sc.sets {
 		ss = append(ss, fmt.Sprintf("%d:%d", kv[0], kv[1]))
 	}
-	return fmt.Sprintf("%s vm %s %s x=%s s=%s d=%s fd=%d", head, x.sc.fee, x.sc.err, strings.Join(xs, ","), strings.Join(ss, ","), joinInts(x.sc.dels), b2i(!x.sc.nofd))
+	w := fmt.Sprintf("%s vm %s %s x=%s s=%s d=%s fd=%d", head, x.sc.fee, x.sc.err, strings.Join(xs, ","), strings.Join(ss, ","), joinInts(x.sc.dels), b2i(!x.sc.nofd))
+	if x.sc.multi {
+		w += " multi"
+	}
+	return w
 }
 
 func rejClass(err error) string {
@@ -817,13 +834,10 @@ func expectFailed(pre *snap, x *txSpec, feeUsed *big.Int) *snap {
 // contract's storage writes, which survive only if the storage object is shared with the block's cache),
 // or nil if the transaction does not have that shape.
 func (s *session) expectLeak(pre *snap, x *txSpec, feeUsed *big.Int) []*snap {
-	if x.sc == nil || x.sc.err != "ok" || x.rcpt < 0 && x.typ != types.TxType_DEPLOY && x.typ != types.TxType_NORMAL {
+	if x.sc == nil || x.sc.err != "ok" || x.rcpt < 0 && x.typ != types.TxType_DEPLOY && x.typ != types.TxType_NORMAL && !(x.typ == types.TxType_MULTICALL && x.sc.multi) {
 		return nil
 	}
-	rc := x.rcpt
-	if rc < 0 {
-		rc = x.newAddr
-	}
+	rc := x.target()
 	e := expectFailed(pre, x, feeUsed)
 	av := new(big.Int).Set(pre.acct(rc).bal)
 	if x.sender != rc {
@@ -844,6 +858,9 @@ func (s *session) expectLeak(pre *snap, x *txSpec, feeUsed *big.Int) []*snap {
 		}
 	}
 	e2 := e.clone()
+	if x.typ == types.TxType_MULTICALL {
+		return []*snap{e} // a multicall has no storage of its own
+	}
 	for _, kv := range x.sc.sets {
 		if e2.stor[rc] == nil {
 			e2.stor[rc] = map[int]int{}
@@ -933,7 +950,14 @@ func (s *session) expectSuccess(pre *snap, x *txSpec, feeUsed *big.Int, blockNo 
 			e.names[0] = [2]int{a, iName}
 		}
 	case types.TxType_MULTICALL:
-		// never succeeds with the stub VM
+		// `receiver = sender`: the script's transfers leave the sender's own account; no storage, no staging
+		if x.sc != nil && x.sc.multi {
+			for _, t := range x.sc.xfers {
+				if t.to != x.sender {
+					e.move(x.sender, t.to, t.amt)
+				}
+			}
+		}
 	default:
 		e.move(x.sender, rc, x.amount)
 		rcv := pre.acct(rc)
@@ -1626,10 +1650,7 @@ func (b *blockGen) vmBound(x *txSpec, isFD bool) *big.Int {
 	}
 	base := b.baseFee(len(x.payload))
 	sb := new(big.Int).Sub(b.cur.acct(x.sender).bal, x.amount)
-	rc := x.rcpt
-	if rc < 0 {
-		rc = x.newAddr
-	}
+	rc := x.target()
 	rb := new(big.Int).Add(b.cur.acct(rc).bal, x.amount)
 	if x.sender == rc {
 		sb, rb = b.cur.acct(x.sender).bal, b.cur.acct(rc).bal
@@ -1802,10 +1823,7 @@ func (b *blockGen) holdAtCheck(x *txSpec, isFD bool) *big.Int {
 		payer = x.rcpt
 	}
 	hold := new(big.Int).Set(b.cur.acct(payer).bal)
-	rc := x.rcpt
-	if rc < 0 {
-		rc = x.newAddr
-	}
+	rc := x.target()
 	if x.sender != rc {
 		if payer == x.sender {
 			hold.Sub(hold, x.amount)
@@ -2160,6 +2178,19 @@ func (b *blockGen) genMulticall() *txSpec {
 	x := &txSpec{typ: types.TxType_MULTICALL, sender: u, rcpt: -1, amount: new(big.Int)}
 	x.nonce, _ = b.randNonce(u)
 	x.sc = &script{fee: new(big.Int), err: "ok"}
+	if b.s.rng.Chance(2, 3) {
+		// a multicall script: transfers out of the sender's own account (`receiver = sender`), VM fee on the
+		// boundaries, every error class
+		x.rcpt = u // genScript / setFee look at the "called" account: the sender's own
+		x.sc = b.genScript(x, false, b.cur.acct(u).bal)
+		x.sc.multi = true
+		x.rcpt = -1
+		if b.s.rng.Chance(1, 3) {
+			x.gasLimit = b.genGasLimit(len(b.s.scriptJSON(x.sc)))
+		}
+		b.setFee(x, false)
+		x.label = "multicall-script"
+	}
 	if b.s.rng.Chance(1, 6) {
 		x.amount = big.NewInt(1) // refused: a multicall carries no amount
 	}
